@@ -5,6 +5,7 @@ from ..index import u, call_name, call_attr, walk_local, base_name
 from .. import flow
 from ..fold import try_fold
 from ..util import stmts_with_env, calls_with_env, assignments_to, single_def, kwarg, param_names
+from . import shared
 from .common import method, unconditional_in
 
 RG = 'vermouth/processors/repair_graph.py'
@@ -191,4 +192,5 @@ def run(ck):
     call_rr = [s for s in ast.walk(rg) if isinstance(s, ast.Expr) and call_name(s.value) == 'repair_residue']
     ok = ok and len(call_rr) == 1 and all(call_rr[0].lineno < s.lineno for s in fd)
     ck.ob('PROV-unrecognised', mod.loc(rg), ok, 'the complement is taken after the residue was repaired (rebuilt atoms are in the match)', key='PROV-unrecognised|after-repair')
+    shared.truthy_zero(ck, [RG])
     ck.assume('that the search returns a largest match and that the result is invariant under renaming/permutation depend on the ISMAGS search outcome (C06, not applicable)')
